@@ -6,6 +6,18 @@ ROOT = os.path.dirname(os.path.abspath(__file__))
 BASE_NOTE = "Trusted base: the harness's own reference model/oracle for this property (written from GitHub's documentation, not from actionlint's code), pgregory.net/rapid v1.3.0, the Go toolchain. 'Held' means held on every generated case; absence of violations outside the explored region is not established."
 
 CHECKS = {
+ "C04": dict(
+   technique="exhaustive enumeration of short token sequences and character strings + rapid random trees/edits/literals, differential against a reference lexer and precedence-climbing parser; structure compared modulo associativity",
+   text="Generated-input search against an independent reference grammar: all token sequences <=5 (6) tokens and all strings <=4 (5) characters over the lexically relevant alphabet are parsed by actionlint and by the harness's reference parser; verdict (accept/reject), tree structure modulo associativity, literal values and error offset/line/column are compared; random deep trees with known structure, single-token edits, number/string literal fuzz and a sample through the linter extend beyond the exhaustive bound.",
+   design="DESIGN.md section 5, C04"),
+ "C06": dict(
+   technique="rapid metamorphic testing: (typing environment, expression, loosening) triples; accepted under the environment => accepted under the loosened one; plus clean-workflow variant with fromJSON-defined matrix parts",
+   text="Metamorphic relation over generated typing environments and expressions: every expression accepted by the semantic checker must still be accepted after one type occurrence is replaced by any or a closed object is opened; the same relation is checked end to end on generated clean workflows whose matrix row/include/whole matrix is replaced by an expression.",
+   design="DESIGN.md section 5, C06"),
+ "C17": dict(
+   technique="exhaustive enumeration of strings <=5 (6) characters over a 19-character alphabet + rapid random longer strings against a three-valued reference validator; implication, column and named-character invariants; sampled through the linter",
+   text="All short strings over the special/ordinary/ref-forbidden/whitespace/control/non-ASCII representatives are validated as ref and as path filter and compared with a reference validator written from the filter-pattern cheat sheet and git's ref character rules (strings the documentation leaves open are not compared); ref-accept implies path-accept, columns lie in the pattern on the character the message names, and linter positions equal scalar start + column.",
+   design="DESIGN.md section 5, C17"),
  "C18": dict(
    technique="exhaustive enumeration of small needs graphs + rapid random graphs against a reference graph model (Kahn cyclicity, case-folded resolution); printed cycle validated edge by edge",
    text="Generated-input search with an explicit reference model: every needs graph up to 3 jobs with ordered/duplicated/dangling entries, every edge set on 4 jobs (5 in the thorough tier), and random graphs with 6-30 jobs are linted and compared with a reference graph algorithm (dangling set, cyclic iff exactly one report, printed path is a real simple cycle).",
